@@ -22,7 +22,7 @@ INFO = {
                    "values[a] unchecked), every operator code is one eval_fr implements (set taken from C19's extraction on the current "
                    "tree), Input nodes form one contiguous run as get_inputs_size assumes, input indices are below the buffer size, "
                    "witness-signal indices are below the node count, stored constants are canonical (< p), the container is consumed "
-                   "exactly and the trailer points at the metadata.",
+                   "exactly and the trailer points at the metadata. R05-5 (shared with C19): the operators the graph is evaluated with realise circom's comparison table, reduce before from_bigint, guard division and shifts, and take integer quotient / remainder and the ring operations on the whole values.",
     "not_decided": "the first sentence: equality of the computed witness with the reference generator (rln.wasm) for every assignment - a "
                    "numeric fact about 22k field operations; operator arithmetic on boundary operands is C19's",
     "assumptions": ["the pure-Python protobuf reader in zkrules/resources.py implements the wire format of proto.rs (field numbers checked by C20)"],
@@ -98,6 +98,17 @@ def run(ctx):
     ctx.prefetch(["default", "fixtures"])
     fb = ctx.fb("default")
     check_purity(ctx, fb)
+    # ---- R05-5 (shared with C19 R19-2..R19-6): the operators the bundled graph is evaluated with follow circom's semantics
+    from . import c19
+    from ..main import Ctx as _Ctx5
+    sub5 = _Ctx5(ctx.pid, ctx.tier)
+    c19.check_compare(sub5, fb)
+    c19.check_sinks(sub5, fb)
+    c19.check_guards(sub5, fb)
+    c19.check_intdiv(sub5, fb)
+    c19.check_ring_ops(sub5, fb)
+    for r in sub5.results:
+        (ctx.ok if r.status == "ok" else ctx.fail)("R05-5", r.instance, r.reason, r.loc)
     # ---- R05-2 order independence of placement (rule shared with C20)
     from ..main import Ctx
     sub = Ctx(ctx.pid, ctx.tier)
